@@ -77,6 +77,17 @@ def precedence_tables(ctx, R1, only=None):
     """decision tables of the three-level getters (certificate > endpoint > global > built-in default), evaluated for every presence
     combination; shared with C06 for the two renewal-timing options"""
     prog = ctx.prog
+    rows = precedence_eval(prog)
+    if rows is not None:
+        # evaluation first: end-to-end value for every presence pattern; the per-level tables below are the fallback
+        ctx.floor(R1, "evaluated presence patterns", len(rows), 42)
+        for opt, pattern, got, want in rows:
+            if only and opt not in only:
+                continue
+            gb_ = prog.must_body("%s::%s" % (C, CHAINS[opt][0] if opt in CHAINS else "get_crt_dir"))
+            ctx.require(R1, got == want, "%s:%s" % (gb_.file, gb_.line), "%s with %s = %s (most specific level wins, else the built-in default: %s)" % (opt, pattern, got[-1], want[-1]),
+                        ["config::precedence", opt, pattern])
+        return True
     for opt, (getter, parser, dflt_const) in CHAINS.items():
         if only and opt not in only:
             continue
@@ -135,7 +146,14 @@ def precedence_tables(ctx, R1, only=None):
 def check(ctx):
     prog = ctx.prog
     R1 = ctx.rule("R1", "precedence certificate > endpoint > global > default for renew_delay, random_early_renew, file_name_format; certificate > global > default for the directory (decision tables)")
-    precedence_tables(ctx, R1)
+    if not precedence_tables(ctx, R1):
+        _dir_table(ctx, R1)
+    _endpoint_wiring(ctx, R1)
+    _rest(ctx)
+
+
+def _dir_table(ctx, R1):
+    prog = ctx.prog
     # directory
     db = prog.must_body(C + "::get_crt_dir")
     ddir = prog.const("acmed::DEFAULT_CERT_DIR").get("str")
@@ -156,12 +174,22 @@ def check(ctx):
                 good = d[0] == "const" and d[1] == ddir
             ctx.require(R1, good, "%s:%s" % (db.file, db.line), "directory: certificate %s, global %s -> %s" % ("set" if cset else "unset", gstate, d),
                         ["config::Certificate::get_crt_dir", "%s-%s" % ("set" if cset else "unset", gstate)])
-    # do_get_endpoint selects by name equality with self.endpoint
-    de = prog.must_body(C + "::do_get_endpoint")
-    from .guards import name_lookup
-    nl = name_lookup(prog, C + "::do_get_endpoint")
-    good = (E, "name") in nl["fields"] and (C, "endpoint") in nl["fields"]
-    ctx.require(R1, good, "%s:%s" % (de.file, de.line), "the certificate's endpoint is the one whose name equals certificate.endpoint", ["config::Certificate::do_get_endpoint", "by-name"])
+
+
+def _endpoint_wiring(ctx, R1):
+    prog = ctx.prog
+    if precedence_eval(prog) is None:
+        # do_get_endpoint selects by name equality with self.endpoint (evaluated above with two endpoints when precedence_eval runs)
+        de = prog.must_body(C + "::do_get_endpoint")
+        from .guards import name_lookup
+        nl = name_lookup(prog, C + "::do_get_endpoint")
+        good = (E, "name") in nl["fields"] and (C, "endpoint") in nl["fields"]
+        ctx.require(R1, good, "%s:%s" % (de.file, de.line), "the certificate's endpoint is the one whose name equals certificate.endpoint", ["config::Certificate::do_get_endpoint", "by-name"])
+    _wiring(ctx, R1)
+
+
+def _wiring(ctx, R1):
+    prog = ctx.prog
     # wiring in MainEventLoop::new
     nb = prog.async_body("acmed::main_event_loop::MainEventLoop::new")
     for i, st in agg_assigns(nb, "acmed::certificate::Certificate"):
@@ -184,14 +212,25 @@ def check(ctx):
             ctx.fail(R1, where(nb, i), "certificate FileManager: crt_name_format/crt_directory wired to %s" % got, ["MainEventLoop::new", "fm-format-dir"])
     ctx.require(R1, n_ok >= 1, "%s:%s" % (nb.file, nb.line), "the certificate's FileManager takes crt_name_format / crt_directory from get_crt_name_format / get_crt_dir", ["MainEventLoop::new", "fm-format-dir-present"])
 
+
+def _rest(ctx):
+    prog = ctx.prog
     merge_pairing(ctx, ctx.rule("R2", "the include merge assigns every GlobalOptions field from the same-named field of the included [global] table"))
 
     R3 = ctx.rule("R3", "endpoint, rate-limit, hook, group, account and certificate lists of an included file are appended to the like-named lists")
-    rc = prog.must_body("acmed::config::read_cnf")
+    from . import include_model as _im
+    inc_eval = _im.include_table(prog) is not None         # evaluation first: the structural forms below are the fallback
+    rc = _im.reader(prog) if inc_eval else prog.must_body("acmed::config::read_cnf")
     lists = [f["name"] for f in prog.adt(CFG)["variants"][0]["fields"] if f["ty"].startswith("alloc::vec::Vec<acmed::config::")]
     ctx.floor(R3, "list sections of config::Config", len(lists), 6)
     seen = {}
-    for c in rc.calls_to("alloc::vec::Vec::append", "core::iter::traits::collect::Extend::extend", "alloc::vec::Vec::extend_from_slice"):
+    if inc_eval:
+        for name, got, want in _im.include_table(prog):
+            diffs = [d_ for d_ in _im.differences(got, want) if d_.startswith("section ")] if not (got and got[0] == "Err") else ["refused: %s" % got[1]]
+            ctx.require(R3, not diffs, "%s:%s" % (rc.file, rc.line), "configuration tree `%s`: every section entry of every file is merged exactly once (%s)" % (name, diffs or "evaluated"),
+                        ["config::read_cnf", "sections-evaluated", name])
+        seen = {f: True for f in lists}
+    for c in ([] if inc_eval else rc.calls_to("alloc::vec::Vec::append", "core::iter::traits::collect::Extend::extend", "alloc::vec::Vec::extend_from_slice")):
         a0 = {f for a, f in arg_origins(c, 0, stop_adts=(CFG,)).fields if a == CFG}
         o1 = arg_origins(c, 1, stop_adts=(CFG,))
         a1 = {f for a, f in o1.fields if a == CFG}
@@ -204,6 +243,14 @@ def check(ctx):
         ctx.require(R3, f in seen, "%s:%s" % (rc.file, rc.line), "section `%s` of an included file is merged" % f, ["config::read_cnf", "append-missing", f])
 
     R4 = ctx.rule("R4", "each file is read once: visited test + insertion on the canonical path before the open; includes resolved from the including file's canonical directory")
+    if inc_eval:
+        for name, got, want in _im.include_table(prog):
+            bad = (got and got[0] == "Err")
+            twice = [] if bad else [d_ for d_ in _im.differences(got, want) if "merged twice" in d_ or "lost" in d_]
+            ctx.require(R4, not bad and not twice, "%s:%s" % (rc.file, rc.line),
+                        "configuration tree `%s` loads, each file read once whatever its spelling, includes resolved from the including file's directory (%s)" % (name, got[1] if bad else (twice or "evaluated")),
+                        ["config::read_cnf", "read-once-evaluated", name])
+        return _r5(ctx)
     opens = rc.calls_to("std::fs::File::open")
     from .guards import visited_guard
     neg, ins, cont, revisit = visited_guard(rc, lambda sl: sl.has_leaf("param:2"))
@@ -238,6 +285,13 @@ def check(ctx):
         ctx.require(R4, sl.via_any("std::path::Path::canonicalize") and sl.via_any("std::path::PathBuf::pop") and sl.via_any("std::path::PathBuf::push") and sl.has_leaf("param:1") and sl.has_leaf("param:2"),
                     c.where(), "include pattern = canonical(including file).parent + pattern", ["config::get_cnf_path", "relative-to-includer"])
 
+    _r5(ctx)
+
+
+def _r5(ctx):
+    prog = ctx.prog
+    from .guards import name_lookup
+    nb = prog.async_body("acmed::main_event_loop::MainEventLoop::new")
     R5 = ctx.rule("R5", "unresolved endpoint / rate limit / hook / group / account and duplicate certificate ids are errors that reach MainEventLoop::new's caller")
     from .hook_table import EXPECT_ERR, evaluated, hook_table, resolver
     ht = hook_table(prog)
@@ -357,6 +411,11 @@ def base_locals(body, op):
 
 def merge_pairing(ctx, rid, only=None):
     prog = ctx.prog
+    from . import include_model as _im
+    if _im.include_table(prog) is not None:
+        # evaluation first: the merged [global] table is computed on the virtual trees; the structural pairing below is the fallback
+        ctx.floor(rid, "Option fields of GlobalOptions", len(_im.option_fields(prog) or []), 14)
+        return include_rule(ctx, rid, only)
     rc = prog.must_body("acmed::config::read_cnf")
     fields = [f["name"] for f in prog.adt(G)["variants"][0]["fields"]]
     ctx.floor(rid, "fields of GlobalOptions", len(fields), 15)
@@ -438,3 +497,71 @@ def include_rule(ctx, rid, only=None):
             ctx.fail(rid, loc, "configuration tree `%s`: %s" % (name, d_), ["config::read_cnf", "include-evaluated", name, kind])
         if not diffs:
             ctx.ok(rid, "configuration tree `%s` evaluated: sections %s, %d global options, as expected" % (name, {k: len(v) for k, v in want[0].items()}.get("endpoint"), len(want[1])))
+
+
+def precedence_eval(prog):
+    """the three-level getters EVALUATED end to end: Certificate::<getter>(&certificate, &config) interpreted (every config method
+    followed) on a configuration with two endpoints, for every presence pattern certificate x endpoint x global(absent|unset|set),
+    with distinct marker values per level; parse_duration answers Ok("parsed(<text>)"). Also the storage directory (certificate >
+    global > default). [(option, pattern, got, want)] or None when some run does not evaluate.
+    Expected value: the most specific level that sets the option, else the built-in default constant."""
+    from ..absint import Interp, Val, some, struct_val, success_model, vstr, ok as _ok
+    rows = []
+    follow = lambda cs: (cs.name or "").startswith(("acmed::config::", "<acmed::config::"))
+
+    def mdl(cs, args):
+        n = cs.name or ""
+        if n.endswith("duration::parse_duration") and args and args[0].deref().k == "str":
+            return _ok(vstr("parsed(%s)" % args[0].deref().v))
+        return None
+
+    def result(r):
+        if r.kind != "return" or r.ret is None:
+            return None
+        v = r.ret.deref()
+        if v.k == "adt" and v.extra and v.extra[0] == "core::result::Result":
+            if v.extra[1] != "Ok":
+                return ("Err",)
+            v = v.v[0].deref()
+        if v.k == "str":
+            return ("str", v.v)
+        if v.k == "int":
+            return ("int", v.v)
+        return None
+    specs = [(opt, getter, opt, opt, opt, parser, dc, True) for opt, (getter, parser, dc) in CHAINS.items()]
+    specs.append(("directory", "get_crt_dir", "directory", None, "certificates_directory", None, "acmed::DEFAULT_CERT_DIR", False))
+    for opt, getter, cf, ef, gf, parser, dflt_const, has_ep in specs:
+        cb = prog.body("%s::%s" % (C, getter))
+        if cb is None or cf not in prog.adt_fields(C) or gf not in prog.adt_fields(G) or (has_ep and ef not in prog.adt_fields(E)):
+            return None
+        dflt = prog.const(dflt_const)
+        dval = dflt.get("int", dflt.get("str"))
+        for pc in (True, False):
+            for pe in ((True, False) if has_ep else (False,)):
+                for pg in ("absent", "unset", "set"):
+                    epf = {"name": vstr("ep")}
+                    other = {"name": vstr("other")}
+                    if has_ep:
+                        epf[ef] = some(vstr("EPV")) if pe else NONE
+                        other[ef] = some(vstr("OTHER"))
+                    gl = NONE if pg == "absent" else some(struct_val(prog, G, {gf: some(vstr("GV")) if pg == "set" else NONE}, default=NONE))
+                    cnf = struct_val(prog, CFG, {"endpoint": Val("list", [struct_val(prog, E, other), struct_val(prog, E, epf)]), "global": gl})
+                    crt = struct_val(prog, C, {"endpoint": vstr("ep"), cf: some(vstr("CRT")) if pc else NONE})
+                    try:
+                        it = Interp(cb, success_model(cb, mdl), 60000)
+                        it.follow = follow
+                        r = it.run({1: Val("ref", crt), 2: Val("ref", cnf)})
+                    except Exception:
+                        return None
+                    got = result(r)
+                    if got is None:
+                        return None
+                    src = "CRT" if pc else ("EPV" if pe else ("GV" if pg == "set" else None))
+                    if src is None:
+                        want = ("int", dval) if isinstance(dval, int) else ("str", dval)
+                    else:
+                        want = ("str", "parsed(%s)" % src if parser else src)
+                    if got[0] == "int" and want[0] == "int":
+                        pass
+                    rows.append((opt, "certificate %s, endpoint %s, global %s" % ("set" if pc else "unset", ("set" if pe else "unset") if has_ep else "n/a", pg), got, want))
+    return rows
